@@ -174,11 +174,10 @@ def _round8(ctx):
 def _round10(ctx):
     """Found by seeding round 10 (a read into 'what is left of the buffer': a reserve of zero at a frame boundary trips the reader's own assertion, at one segmentation only)."""
     import re
-    with ctx.rule('R06.9', 'the room asked for before a read does not depend on how full the buffer is and is never shrunk: it is built from constants, configuration and the frame size, without min / subtraction / division', floor=8) as r:
+    with ctx.rule('R06.9', "the room asked for before a read does not depend on the buffer's storage state (capacity, spare room, cursor): it is built from constants, configuration, the frame size and the number of bytes buffered", floor=8) as r:
         rows = P.table(ctx, RF, ['self', 'stream', 'handler'])
         site = ctx.site(RF)
         PRE = 'input_buffer::InputBuffer::prepare_reserve(self.buf, '
-        SHRINK = ('::min(', ' - ', '_sub(', ' / ', ' % ', ' >> ', '::clamp(', '_div(', '_rem(')
         n = 0
         for x in rows:
             at = [k for k, e in enumerate(x.effects) if e.startswith(PRE) and e.endswith(')')]
@@ -203,11 +202,12 @@ def _round10(ctx):
             undecided = False
             if undecided or val in ('()', '') or re.search(r'\$\w', val):
                 # the value reaches the call through a form the reader does not evaluate (e.g. `let reserve = loop { .. break v }`): no verdict, no alarm
-                r.check('reserve-never-shrunk:%s:%d' % (x.done, n), True, site, built='undecided: ' + val)
+                r.check('reserve-independent-of-storage:%s:%d' % (x.done, n), True, site, built='undecided: ' + val)
                 continue
-            rest = val.replace(SIZE + '.Some.0', 'SIZE')
-            bad = [t for t in SHRINK if t in rest] + (['self.buf'] if 'self.buf' in rest else []) + (['0'] if rest.strip('()') == '0' else [])
+            rest = val.replace(SIZE + '.Some.0', 'SIZE').replace(SIZE, 'SIZE?').replace('std::slice::len(%s)' % CHUNK, 'LEN').replace('<[u8]>::len(%s)' % CHUNK, 'LEN')
+            bad = (['self.buf'] if 'self.buf' in rest else []) + (['0'] if rest.strip('()') == '0' else [])
             tag = 'known-size' if x.conds[0][1] == 'Some(_)' else 'unknown-size'
-            r.check('reserve-never-shrunk:%s:%s:%d' % (tag, x.done, n), not bad, site, built=val, expected='a term over constants, configuration and the frame size without ' + ', '.join(SHRINK) + ' and without reading self.buf',
-                    why='input_buffer asserts a positive reserve and a zero-length read is reported as end of stream: a reserve that depends on how full the buffer is makes the outcome depend on where the reads were cut (%s)' % ', '.join(bad))
+            r.check('reserve-independent-of-storage:%s:%s:%d' % (tag, x.done, n), not bad, site, built=val, expected='a term over constants, configuration, the frame size and chunk().len() -- no other read of self.buf, not the literal 0',
+                    why="input_buffer asserts a positive reserve and a zero-length read is reported as end of stream: room derived from the buffer's capacity is 0 exactly when the bytes received so far fill it, "
+                        'so the outcome depends on where the reads were cut (%s)' % ', '.join(bad))
         r.check('reading-rows', n >= 8, site, built=n, expected='>= 8')
